@@ -55,6 +55,10 @@ def make_case(ast):
     return dict(input=gram.render(ast), expect=exp, features=sorted(gram.features(ast)))
 
 
+def case_from_text(text):
+    return make_case(gram.parse(text))
+
+
 def enumerate_cases(tier):
     n = 4 if tier == 'thorough' else 3
     for ast in gram.enum_asts(n):
